@@ -13,4 +13,4 @@ def tasks(tier):
 
 
 LEVEL_TEXT = ('Proof: Feasible(state), recomputed from raw state arrays, is part of the inductive invariant: reset establishes it for every key / sampler outcome and every legal action preserves it; an episode ending by completion yields a complete feasible solution. By induction every state reached by mask-respecting play is feasible.')
-LEVEL_NOTE = ('instance sizes enumerated (tiny for BinPack); coordinates, durations, demands unbounded; MultiCVRP and MMST are not covered (listed in not_verified).')
+LEVEL_NOTE = ('instance sizes enumerated (tiny for BinPack); coordinates, durations, demands unbounded; MultiCVRP (contracts/multi_cvrp_c06.py) and MMST (contracts/mmst_c04.py: utility-node exclusivity, completion) have their own modules; the generator post-conditions assumed at reset are discharged on the real generators (genpost:* tasks).')
